@@ -18,6 +18,7 @@ META = {
              "Observed by oracle on mj_step output for all four integrators: time advanced by exactly timestep (bitwise), quaternion norms within 1e-12, act within actrange, Euler (eulerdamp disabled) qvel' = qvel + h qacc and q' = q + h v' for scalar/free-translation coordinates (1e-12). "
              "C05_actuator_vel - for an actuator with affine gain and bias and no activation the derivative rule of mjd_actuator_vel (gain velocity coefficient times the CLAMPED control plus bias velocity coefficient; 0 when the clamped force sits at either forcerange limit) is the derivative of the applied force wherever it exists, for any forcerange flo < fhi (asymmetric, one-sided); tied on one-hinge models (optionally behind a 3-input PID actuator so that actuator index != control index). "
              "Implicit integrators, oracle with an independently MEASURED derivative: on mjgen models with re-randomised asymmetric/one-sided forceranges, ctrlranges, kv / velocity gains, gear signs, damping, disabled groups, and on custom models (multi-input PID actuators in front of limited ones, tendons across sibling branches and along chains, standalone free body), D = d qfrc/d qvel is measured by central finite differences of mj_forward (one-sided differences must agree, else the case is skipped as a kink) and both (M - hD)(v_new - v) = h(qfrc_smooth + qfrc_constraint) and qDeriv = D are checked row by row (implicitfast: passive + actuator part, full block for standalone free bodies). "
+             "RK4 stage times: the one-joint RK4 cases are driven by an mjcb_control callback ctrl = c0 + c1 t + c2 t^2 (two thirds of the cases), and mj_step is compared with the textbook classical RK4 scheme (nodes 0, 1/2, 1/2, 1) computed independently and with the model rk4 whose stage times are t + (row sum of the regenerated tableau) h; the translator also pins the node-coefficient loop of mj_RungeKutta (j = 0 .. i-1) and the assignment d->time = T[i-1]. "
              "Option combinations: the same step clauses run under extra disableflags (damper, eulerdamp, spring, gravity, actuation, clampctrl, constraint, frictionloss, limit, warmstart, refsafe and random subsets), and for the Euler integrator the clause is (M + h B)(v_new - v) = h(qfrc_smooth + qfrc_constraint) with B the MEASURED joint damping d qfrc_damper_i/d qvel_i (zero when the damper flag removes damping from the dynamics) if eulerdamp is enabled and B = 0 (v_new = v + h qacc) otherwise. "
              "This found two defects of /repo: the velocity-gain term used the unclamped control (fixed in /repo e72d433e4, the revert is kept as a mutant) and derivative terms between dofs that are not on one kinematic chain (cross-branch tendon damping / tendon actuators) are dropped by the sparsity of qDeriv (KNOWN finding C05-F1, emitted only for rows whose missing column is coupled by such a tendon according to input facts of the model). "
              "Not covered: IEEE rounding (all theorems are over R); the DC-motor branch of mj_nextActivation, wrapPeriod/SO3 re-anchoring of integrator activations, sleep filtering, history buffers, plugins; that mj_RungeKutta's loop equals the model's rk4 is tied only on the one-joint system; implicit integrators only through C05_implicit_partial and the oracle."),
@@ -100,7 +101,8 @@ def run(ctx):
     sreq = [(mo, integ, 3 if quick else 20, nodamp) for mo in models for integ in (0, 1, 2, 3) for nodamp in ((1, 0) if integ == 0 else (0,))]
     rreq = []
     for k in range(20 if quick else 600):
-        rreq.append([rng.uniform(0, 50), rng.uniform(0, 3), rng.uniform(0.2, 5), rng.choice([0.001, 0.002, 0.01, 0.05]), rng.uniform(-1, 1), rng.uniform(-3, 3)])
+        tc = [0.0, 0.0, 0.0] if k % 3 == 0 else [rng.uniform(-5, 5), rng.uniform(-200, 200), rng.uniform(-2000, 2000)]     # control callback c0 + c1 t + c2 t^2
+        rreq.append([rng.uniform(0, 50), rng.uniform(0, 3), rng.uniform(0.2, 5), rng.choice([0.001, 0.002, 0.01, 0.05]), rng.uniform(-1, 1), rng.uniform(-3, 3)] + tc)
     ireq = [(mo, r, integ) for mo in models for r in range(2 if quick else 5) for integ in (2, 3)]
     # custom models (driver c05_custom): multi-input PID actuators in front of limited ones (actuator index != control index),
     # tendons across sibling branches / along a chain, asymmetric and one-sided force / control ranges, standalone free body
@@ -144,7 +146,7 @@ def run(ctx):
     for (pre_, cl, clo, chi, fl, a) in vreq:
         inp.append("V %d %d %x %x %d %s" % (pre_, cl, bits(clo), bits(chi), fl, " ".join("%x" % bits(x) for x in a)))
     for a in rreq:
-        inp.append("R " + " ".join("%x" % bits(x) for x in a) + " 1")
+        inp.append("R " + " ".join("%x" % bits(x) for x in a[:6]) + " 1 " + " ".join("%x" % bits(x) for x in a[6:]))
     import time as _t
     _t0 = _t.time()
     rc, out, err = ctx.run(exe, "\n".join(inp) + "\n", timeout=900)
@@ -503,7 +505,7 @@ def run(ctx):
         if o is None:
             ctx.broken.append(("correspondence", "one-joint RK model did not compile", str(a)))
             continue
-        k_, b_, m_, h, q, v = a
+        k_, b_, m_, h, q, v, c0, c1, c2 = a
         if o[2] != 0.25 + h:
             ctx.violation("impl_violation", {"op": "mj_step RK4 one joint", "args": a}, expected=0.25 + h, observed=o[2], signature={"site": "mj_step", "integrator": "RK4"}, theorem="C05_time")
         # independent oracle: on a linear system every 4-stage order-4 RK method equals the degree-4 Taylor polynomial of exp(hA)
@@ -514,12 +516,27 @@ def run(ctx):
         for n in range(1, 5):
             term = [h * (A[0][0] * term[0] + A[0][1] * term[1]) / n, h * (A[1][0] * term[0] + A[1][1] * term[1]) / n]
             acc = [acc[0] + term[0], acc[1] + term[1]]
-        if not (close(o[0], acc[0], 1e-9) and close(o[1], acc[1], 1e-9)):
+        if c0 == c1 == c2 == 0 and not (close(o[0], acc[0], 1e-9) and close(o[1], acc[1], 1e-9)):
             ctx.violation("impl_violation", {"op": "mj_step RK4, one slide joint, spring k damper b mass m", "k_b_m_h_q_v": a},
                           expected={"taylor4": acc}, observed={"qpos": o[0], "qvel": o[1]}, signature={"site": "mj_RungeKutta"}, theorem="C05_rk4_tableau")
-        cases.append("(%s, %s, %s, %s, %s, %s, %s, %s, %s)" % (F.fhex(k_), F.fhex(b_), F.fhex(o[3]), F.fhex(h), F.fhex(q), F.fhex(v), F.fhex(o[0]), F.fhex(o[1]), F.fhex(o[2])))
-    chk = ("fun c => match c with (k, b, m, h, q, v, q1, v1, t1) => "
-           "let f := fun (t : float) (qp qv ac : list float) => ([ (nopp (nadd (nmul k (nth O qp 0)) (nmul b (nth O qv 0)))) / m ], @nil float) in "
+        # independent oracle: the classical RK4 scheme (nodes 0, 1/2, 1/2, 1) on q'' = (-k q - b v + u(t)) / m, u(t) from the control callback
+        def rhs(t, y):
+            return [y[1], (-k_ * y[0] - b_ * y[1] + (c0 + c1 * t + c2 * t * t)) / mass]
+        t0_ = 0.25
+        y0 = [q, v]
+        k1 = rhs(t0_, y0)
+        k2 = rhs(t0_ + h / 2, [y0[i] + h / 2 * k1[i] for i in range(2)])
+        k3 = rhs(t0_ + h / 2, [y0[i] + h / 2 * k2[i] for i in range(2)])
+        k4 = rhs(t0_ + h, [y0[i] + h * k3[i] for i in range(2)])
+        yc = [y0[i] + h / 6 * (k1[i] + 2 * k2[i] + 2 * k3[i] + k4[i]) for i in range(2)]
+        if not (close(o[0], yc[0], 1e-9) and close(o[1], yc[1], 1e-9)):
+            ctx.violation("impl_violation", {"op": "mj_step RK4, one slide joint (spring k, damper b, mass m) driven by mjcb_control: ctrl = c0 + c1 t + c2 t^2, time 0.25",
+                                             "k_b_m_h_q_v_c0_c1_c2": a}, expected={"classical_rk4": yc}, observed={"qpos": o[0], "qvel": o[1]},
+                          signature={"site": "mj_RungeKutta", "class": "stage times / classical scheme"}, theorem="C05_rk4_tableau")
+        cases.append("(%s, %s, %s, %s, %s, %s, %s, %s, %s, (%s, %s, %s))" % (F.fhex(k_), F.fhex(b_), F.fhex(o[3]), F.fhex(h), F.fhex(q), F.fhex(v), F.fhex(o[0]), F.fhex(o[1]), F.fhex(o[2]),
+                                                                         F.fhex(c0), F.fhex(c1), F.fhex(c2)))
+    chk = ("fun c => match c with (k, b, m, h, q, v, q1, v1, t1, (c0, c1, c2)) => "
+           "let f := fun (t : float) (qp qv ac : list float) => ([ (nadd (nopp (nadd (nmul k (nth O qp 0)) (nmul b (nth O qv 0)))) (c0 + c1 * t + c2 * t * t)) / m ], @nil float) in "
            "match rk4 (T:=float) [JSlide] h (rows3 (map q2T RK4_A)) (map q2T RK4_B) f 0x1p-2 [q] [v] [] with "
            "(qp, qv, _, t) => fclose 0x1p-30 (nth O qp 0) q1 && fclose 0x1p-30 (nth O qv 0) v1 && fbits_eq t t1 end end")
     _fut = _pool.submit(ctx.coq_eval, "c05_rk", pre, cases, chk, pre="Open Scope float_scope.")
